@@ -82,6 +82,9 @@ DATA = {
     'A': (1, [1.5, 2.5, 7.25], 10),
     'B': (2, [3.5, 4.5, 0.5], 10),
     'C': (3, [0.25, 9.5, 5.5, 6.125, 2.0], 12),
+    # events with x in [8, 10], where the background PDF of the `bkgzero` configurations is exactly zero
+    'D': (4, [1.5, 9.5, 7.25], 10),
+    'E': (5, [9.0, 2.5, 8.5], 10),
 }
 SOURCES = {1: (7, 1.0, 0.3), 2: (8, 2.0, -0.2)}
 NS = {'p': 5, 'q': 6, 'r': 5, 'far': 7, 'out': 5}
@@ -101,7 +104,7 @@ def multi_key(c):
 
 
 def cfg_key(c):
-    return f"{c['world']}/{c['fields']}/{'cache' if c['cache'] else 'nocache'}/{c['interp']}/{c.get('gfp') or 'nogfp'}{'/reuse' if c.get('reuse') else ''}{'/i3' if c.get('i3') else ''}{'/chain' if c.get('chain') else ''}{multi_key(c)}"
+    return f"{c['world']}/{c['fields']}/{'cache' if c['cache'] else 'nocache'}/{c['interp']}/{c.get('gfp') or 'nogfp'}{'/reuse' if c.get('reuse') else ''}{'/i3' if c.get('i3') else ''}{'/chain' if c.get('chain') else ''}{'/bkgzero' if c.get('bkgzero') else ''}{multi_key(c)}"
 
 
 def cfg_coq(c):
@@ -253,7 +256,8 @@ class Rig:
             return orig(tdm=tdm, eventdata=eventdata, gridparams_recarray=gridparams_recarray, n_values=n_values, **kw)
         im.func = counting
         self.bkg = BackgroundMultiDimGridPDF(
-            pmm=pmm, axis_binnings=[bx], pdf_grid_data=np.linspace(2.0, 1.0, 11) * (1.0 + 0.11 * ds),
+            pmm=pmm, axis_binnings=[bx],
+            pdf_grid_data=(np.linspace(2.0, 1.0, 11) * (1.0 + 0.11 * ds)) * (np.arange(11) < 8 if c.get('bkgzero') else 1.0),
             norm_factor_func=norm(('B',), 7), cache_pd_values=c['cache'], cfg=cfg)
         ratio = SigOverBkgPDFRatio(sig_pdf=self.sigset, bkg_pdf=self.bkg, cfg=cfg)
         if c.get('i3'):
@@ -524,7 +528,17 @@ CHAIN_DATA = {
     'C': ([(1.05, 0.33, 0.35, 3.5), (2.05, -0.22, 0.30, 5.5), (0.70, 0.50, 0.55, 6.0), (1.50, 0.00, 0.40, 2.0),
            (2.60, -0.40, 0.45, 9.0), (0.30, 0.20, 0.65, 0.5)], 25),
 }
-CHAIN_SOURCES = {1: [(1.0, 0.3), (2.0, -0.2)], 2: [(1.4, 0.1), (2.3, -0.35)]}
+# (ra, dec, relative weight): a source change alters positions AND the relative weights of the two sources
+CHAIN_SOURCES = {1: [(1.0, 0.3, 1.0), (2.0, -0.2, 1.0)], 2: [(1.4, 0.1, 1.0), (2.3, -0.35, 3.0)]}
+# background PDF exactly zero for x >= 8: the PDF ratio of such events is the constant zero_bkg_ratio_value
+BKGZERO_CFGS = [dict(world=w, fields=f, cache=ca, interp=i, gfp=None, bkgzero=True)
+                for (w, f, ca, i) in (('small', 'none', True, 'lin'), ('mjd', 'stat', False, 'par'), ('small', 'all', True, 'par'))]
+BKGZERO_HISTORIES = [
+    [('init', 'A'), ('eval', 'p'), ('init', 'D'), ('eval', 'p'), ('ns2', 5)],
+    [('init', 'D'), ('eval', 'p'), ('init', 'E'), ('eval', 'p')],
+    [('init', 'B'), ('eval', 'q'), ('eval', 'p'), ('init', 'E'), ('eval', 'q'), ('max',)],
+    [('init', 'E'), ('eval', 'r'), ('init', 'A'), ('eval', 'r'), ('init', 'D'), ('eval', 'r')],
+]
 CHAIN_CFGS = [dict(world=w, fields='none', cache=ca, interp=i, gfp=None, chain=True)
               for (w, ca, i) in (('small', True, 'lin'), ('small', False, 'par'), ('mjd', True, 'par'))]
 
@@ -566,7 +580,7 @@ class ChainRig:
         self.rigs = ()
 
         def mk_shg(k):
-            ss = [PointLikeSource(name=f's{j}', ra=ra, dec=dec) for j, (ra, dec) in enumerate(CHAIN_SOURCES[k])]
+            ss = [PointLikeSource(name=f's{j}', ra=ra, dec=dec, weight=wt) for j, (ra, dec, wt) in enumerate(CHAIN_SOURCES[k])]
             fm = SteadyPointlikeFFM(Phi0=1, energy_profile=PowerLawEnergyFluxProfile(E0=1e3, gamma=2, cfg=cfg), cfg=cfg)
             return SourceHypoGroupManager(SourceHypoGroup(sources=ss, fluxmodel=fm, detsigyield_builders=[], sig_gen_method=None))
         self.shgs = {k: mk_shg(k) for k in CHAIN_SOURCES}
@@ -1107,6 +1121,9 @@ def gen_cases(ctx):
     for c in CHAIN_CFGS:
         for h in MULTI_HISTORIES + corpus_histories()[:5] + MAX_HISTORIES:
             cases.append(('one', c, [o for o in h if o != ('eval', 'out')]))
+    for c in BKGZERO_CFGS:
+        for h in BKGZERO_HISTORIES:
+            cases.append(('one', c, h))
     # maximisation result and test statistic (predicate only: the model has no minimizer)
     singles = [c for c in ALL_CFGS if not c.get('reuse')]
     for k, h in enumerate(MAX_HISTORIES):
